@@ -43,6 +43,9 @@ pub struct Cfg11 {
     pub gc: bool,
     pub utf16: bool,
     pub max_txn: usize,
+    /// restrict the alphabet to operations below this root
+    #[serde(default)]
+    pub only_root: Option<char>,
 }
 
 #[derive(Clone, Debug)]
@@ -553,7 +556,8 @@ fn txn_lists(fam: Fam, level: u8, st: &Model, k: usize, max: usize) -> Vec<Vec<O
 }
 
 fn bounds(tier: Tier) -> Vec<(Cfg11, usize)> {
-    let c = |fam, level, gc, utf16, max_txn| Cfg11 { fam, level, gc, utf16, max_txn };
+    let c = |fam, level, gc, utf16, max_txn| Cfg11 { fam, level, gc, utf16, max_txn, only_root: None };
+    let cr = |fam, gc, max_txn, root| Cfg11 { fam, level: 0, gc, utf16: false, max_txn, only_root: Some(root) };
     match tier {
         Tier::Quick => vec![
             (c(Fam::Txt, 0, true, false, 3), 4),
@@ -561,6 +565,8 @@ fn bounds(tier: Tier) -> Vec<(Cfg11, usize)> {
             (c(Fam::Arr, 0, true, false, 3), 4),
             (c(Fam::Map, 1, true, false, 3), 4),
             (c(Fam::Nest, 0, true, false, 2), 3),
+            (cr(Fam::Nest, true, 2, 'a'), 4),
+            (cr(Fam::Nest, false, 1, 'a'), 4),
             (c(Fam::Xml, 0, true, false, 2), 3),
             (c(Fam::Uni, 0, false, true, 2), 3),
         ],
@@ -643,11 +649,16 @@ fn dfs(ctx: &mut Ctx, cfg: &Cfg11, max: usize, trace: &mut Vec<A11>, visited: &m
     }
     let mut acts: Vec<A11> = Vec::new();
     if remaining > 0 {
+        let ok = |op: &Op| cfg.only_root.map(|r| op.tgt().root == r).unwrap_or(true);
         for ops in txn_lists(cfg.fam, cfg.level, &w.d.dump(), w.nops, cfg.max_txn.min(remaining)) {
-            acts.push(A11::Txn(ops));
+            if ops.iter().all(ok) {
+                acts.push(A11::Txn(ops));
+            }
         }
         for op in gen_ops(cfg.fam, &w.e.dump(), w.nops, 0) {
-            acts.push(A11::E(op));
+            if ok(&op) {
+                acts.push(A11::E(op));
+            }
         }
     }
     if w.e_known_d < w.d_events.len() && remaining > 0 {
@@ -661,7 +672,7 @@ fn dfs(ctx: &mut Ctx, cfg: &Cfg11, max: usize, trace: &mut Vec<A11>, visited: &m
     }
     drop(w);
     for a in acts {
-        if trace.is_empty() {
+        if trace.len() == 1 {
             *idx += 1;
             if !ctx.mine(*idx) {
                 continue;
